@@ -28,7 +28,9 @@ Fixpoint name_eqb (a b : name) : bool :=
 Inductive fbody :=
 | BGet (n : name)            (* (defn f [..] n)            plain symbol *)
 | BSet (n : name)            (* (defn f [v ..] (set n v))  plain symbol, first parameter *)
-| BDot (p : list name).      (* (defn f [..] (let [t a.b.c] t)) dot path from inside *)
+| BDot (p : list name)       (* (defn f [..] (let [t a.b.c] t)) dot path read from inside *)
+| BDotSet (p : list name)    (* (defn f [v ..] (set a.b.c v))   dot path write from inside, first parameter *)
+| BDotCall (p : list name) (cargs : list Z).  (* (defn f [..] (a.b.F cargs)) call through a dot path from inside *)
 
 Inductive val :=
 | VNull
@@ -252,7 +254,8 @@ Definition lexical_set (h : heap) (frame : list (name * val)) (stack : list nat)
   | _ => h
   end.
 
-Definition run_body (h : heap) (params : list name) (body : fbody) (clos : list nat) (args : list val)
+(* bodies that do not call further functions *)
+Definition run_body_simple (h : heap) (params : list name) (body : fbody) (clos : list nat) (args : list val)
   : res (heap * val) :=
   let frame := zip_params params args in
   match body with
@@ -261,12 +264,31 @@ Definition run_body (h : heap) (params : list name) (body : fbody) (clos : list 
   | BSet n => let v := match args with a :: _ => a | [] => VNull end in
               Ok (lexical_set h frame clos n v, v)
   | BDot p => dot_get_set h frame clos p None
+  | BDotSet p => let v := match args with a :: _ => a | [] => VNull end in
+                 dot_get_set h frame clos p (Some v)
+  | BDotCall _ _ => Err ENotFun      (* nesting of inside calls deeper than one is not generated *)
   end.
 
-(* (a.b.F args): resolve the callee through the path (privacy applies to the function's name),
-   then run its body in its own lexical context *)
-Definition call_path (h : heap) (stack : list nat) (path : list name) (args : list val) : res (heap * val) :=
-  match dot_get_set h [] stack path None with
+(* the head of a dot path written inside a function is resolved in THAT function's lexical context
+   (its parameters, then the scopes captured at its definition) -- never in the caller's *)
+Definition run_body (h : heap) (params : list name) (body : fbody) (clos : list nat) (args : list val)
+  : res (heap * val) :=
+  match body with
+  | BDotCall p cargs =>
+    match dot_get_set h (zip_params params args) clos p None with
+    | Err e => Err e
+    | Ok (_, VFun _ params' body' clos') => run_body_simple h params' body' clos' (map VInt cargs)
+    | Ok (_, v) => match cargs with [] => Ok (h, v) | _ => Err ENotFun end
+    end
+  | _ => run_body_simple h params body clos args
+  end.
+
+(* (a.b.F args) evaluated in a lexical context (frame = parameters of an enclosing caller, if any):
+   resolve the callee through the path (privacy applies to the function's name), then run its body
+   in its own lexical context *)
+Definition call_path (h : heap) (frame : list (name * val)) (stack : list nat) (path : list name) (args : list val)
+  : res (heap * val) :=
+  match dot_get_set h frame stack path None with
   | Err e => Err e
   | Ok (_, VFun _ params body clos) => run_body h params body clos args
   | Ok (_, v) => match args with [] => Ok (h, v) | _ => Err ENotFun end
@@ -338,13 +360,20 @@ Definition heap0 : heap := [OScope []].
 Inductive op :=
 | OpGet (path : list name)
 | OpSet (path : list name) (z : Z)
-| OpCall (path : list name) (args : list Z).
+| OpCall (path : list name) (args : list Z)
+(* (defn wr [param] (path args)) (wr argsym): the call is made by a caller whose parameter is bound *)
+| OpCallVia (param : name) (argsym : name) (path : list name) (args : list Z).
 
 Definition run_op (h : heap) (o : op) : res (heap * val) :=
   match o with
   | OpGet p => dot_get_set h [] [0%nat] p None
   | OpSet p z => dot_get_set h [] [0%nat] p (Some (VInt z))
-  | OpCall p args => call_path h [0%nat] p (map VInt args)
+  | OpCall p args => call_path h [] [0%nat] p (map VInt args)
+  | OpCallVia param argsym p args =>
+    match stack_lookup h [0%nat] argsym with
+    | None => Err ENotFoundSym
+    | Some (v, _) => call_path h [(param, v)] [0%nat] p (map VInt args)
+    end
   end.
 
 End WithUpper.
